@@ -60,3 +60,13 @@ def sres(r):
     if not isinstance(r, dict): return str(r)
     if r.get('st') in ('skip', 'fail'): return r.get('st') + (':' + r.get('why', '') if r.get('why') else '')
     return "%s reasons=%s errors=%s" % (r.get('decision'), sorted(r.get('reasons') or []), sorted(r.get('errors') or []))
+
+
+def big(n):
+    """a limb number {"neg", "mag": [base-10000 limbs, least significant first]} as text"""
+    if not isinstance(n, dict):
+        return str(n)
+    v = 0
+    for k, limb in enumerate(n.get("mag") or []):
+        v += int(limb) * (10000 ** k)
+    return str(-v if n.get("neg") else v)
